@@ -5,6 +5,7 @@ SPECS = [
     ("cvrp", "CVRP"), ("cvrp", "CVRPDecimal"), ("tsp", "TSP"),
     ("atsp", "ATSP"), ("pdp", "PDP"), ("op", "OP"), ("op", "OPBoundary"),
     ("cvrptw", "CVRPTW"), ("svrp", "SVRP"), ("pctsp", "PCTSP"), ("pctsp", "PCTSPReq"), ("spctsp", "SPCTSP"), ("sdvrp", "SDVRP"),
+    ("mtvrp", "MTVRP"), ("fjsp", "FJSP"), ("fjsp", "JSSP"),
     ("mtsp", "MTSP"), ("mdcpdp", "MDCPDP"), ("mdcpdp", "MDCPDPGen"), ("mdcpdp", "MDCPDPHet"),
     ("smtwtp", "SMTWTP"), ("ffsp", "FFSP"),
     ("flp", "FLP"), ("flp", "FLPFull"), ("mcp", "MCP"), ("mcp", "MCPFull"), ("dpp", "DPP"), ("dpp", "MDPP"),
